@@ -8,6 +8,8 @@ AREA = "turbotunnel"
 KEY_LEAK_W = "redial-writer-fails-first-leak"
 KEY_LEAK_R = "redial-reader-blocked-leak"
 KEY_OVERLAP = "redial-carrier-overlap"
+KEY_CAP = "redial-error-without-close-or-dial-failure"
+QCAP = 2048        # queueSize of common/turbotunnel/consts.go (unexported; a different value shows as a mismatch)
 
 
 # ------------------------------------------------------------------ container/heap
@@ -660,7 +662,139 @@ def key_redial(line, impl, model):
     return "redial-" + (c or "other")
 
 
-def correspond_redial(ctx, exe, lines, kinds):
+# ---- the two queues of the redial connection at their capacity
+
+def expand_q(tokfield):
+    toks = []
+    for t in tokfield.split(","):
+        f = t.split("*")
+        toks += [f[0]] * (int(f[1]) if len(f) == 2 else 1)
+    return toks
+
+
+def parse_ranges(t):
+    out = []
+    if t == "e":
+        return out
+    for r in t.split("."):
+        a, _, b = r.partition("-")
+        out += list(range(int(a), int(b or a) + 1))
+    return out
+
+
+def gen_redialq(ctx):
+    """capacity-boundary scripts for both queues: 2047 / 2048 / 2049 / 4100 packets written while nothing drains the
+    send queue (the dial does not return; or a carrier is active and its WriteTo does not return), or delivered by
+    the carrier while the user does not read; then the queues are drained (partly or completely)."""
+    rng = ctx.rng
+    thorough = ctx.tier == "thorough"
+    lines, kinds = [], []
+
+    def add(toks, k):
+        lines.append("%s redialq 1 %d %s" % (AREA, QCAP, ",".join(toks))); kinds.append(k)
+
+    Q = QCAP
+    # small scripts (also evaluated inside coqc against the extracted runner)
+    add(["W*3", "D1", "w0:1*2", "r0:1*2", "R*3", "W", "C", "W", "R"], "redialq-small")
+    add(["D1", "W*2", "r0:1*3", "R", "w0:0", "D1", "w1:1*2", "R*3", "C"], "redialq-small")
+    add(["W*2", "D0", "W", "R"], "redialq-small")
+    for n in (Q - 1, Q, Q + 1, 2 * Q + 4):
+        full = thorough or n == Q + 1
+        # the first dial has not returned: nothing takes packets off the send queue
+        add(["W*%d" % n, "R", "D1", "w0:1*%d" % (n + 3 if full else 3), "W*2", "w0:1*3", "C", "W", "R"], "redialq-send-dial-blocked")
+    for n in (Q, Q + 1, Q + 2, 2 * Q + 4) if thorough else (Q + 1, Q + 2):
+        full = thorough or n == Q + 2
+        # a carrier is active, its WriteTo does not return: one packet with the carrier, the queue behind it
+        add(["D1", "W*%d" % n, "w0:1*%d" % (n + 3 if full else 3), "W*2", "w0:1*3", "C", "W"], "redialq-send-carrier-blocked")
+    for n in (Q - 1, Q, Q + 1, 2 * Q + 4):
+        full = thorough or n == Q + 1
+        # the carrier delivers, the user does not read
+        add(["D1", "r0:1*%d" % n, "R*%d" % (n + 2 if full else 3), "r0:1*3", "R*5", "W", "C", "R"], "redialq-recv-unread")
+    # both queues full, then the carrier's write side fails: redial; the next carrier gets the oldest packet still queued
+    add(["W*%d" % (Q + 50), "D1", "r0:1*%d" % (Q + 50), "w0:1*2", "w0:0", "D1", "w1:1*3", "r1:1*2", "R*4", "W*3", "C", "W", "R"], "redialq-both-redial")
+    # both full and the dial fails: only now errors
+    add(["W*%d" % (Q + 1), "D0", "W", "R"], "redialq-dial-fails-when-full")
+    for i in range(12 if thorough else 2):
+        toks, cur, active = [], -1, False
+        for _ in range(rng.choice([4, 6, 9])):
+            c = rng.random()
+            big = rng.choice([Q - 1, Q, Q + 1, Q + 7, 3 * Q // 2])
+            if not active and c < 0.5:
+                toks.append("D1"); cur += 1; active = True
+            elif c < 0.55:
+                toks.append("W*%d" % big)
+            elif c < 0.7 and active:
+                toks.append("r%d:1*%d" % (cur, big))
+            elif c < 0.8 and active:
+                toks.append("w%d:1*%d" % (cur, rng.choice([1, 5, big])))
+            elif c < 0.9:
+                toks.append("R*%d" % rng.choice([1, 5, big]))
+            else:
+                toks.append("W*%d" % rng.choice([1, 3]))
+        toks += ["W", "R", "C", "W", "R"]
+        add(toks, "redialq-random")
+    return lines, kinds
+
+
+def analyse_redialq(line, impl, model):
+    a = line.split(" ")
+    toks = expand_q(a[4])
+    if impl.startswith("!hang-write"):
+        return ("redial-write-blocks", "blocks: a user WriteTo did not return within 10 s (WriteTo never blocks; a full send queue drops)")
+    legacy = "%s redial %s %s" % (a[0], a[2], ",".join(toks))
+    if impl.startswith("!"):
+        return (key_redial(legacy, impl, model), prop_redial(legacy, impl, model))
+    try:
+        ans = impl.split(";")[0].split(",")
+        f = dict(kv.split("=") for kv in impl.split(";")[1].split(" "))
+        off, got = parse_ranges(f["off"]), parse_ranges(f["got"])
+    except Exception:
+        return ("redial-other", "other: malformed answer " + impl[:100])
+    ended, nw, nr = False, 0, 0
+    for t, r in zip(toks, ans):
+        if r == "E" and not ended:
+            what = ("user WriteTo #%d (%d written before it, nothing or little drained)" % (nw + 1, nw)) if t == "W" else \
+                   ("user ReadFrom (after %d packets delivered by the carrier)" % nr) if t == "R" else t
+            return (KEY_CAP, "%s answered an error although Close was not called and no dial had failed; a full queue "
+                    "(capacity %s) drops silently" % (what, a[3]))
+        if (t == "C" or t == "D0") and r != "n":
+            ended = True
+        nw += t == "W"
+        nr += t[0] == "r" and t.endswith(":1") and r == "-"
+    for name, seq in (("handed to the carriers", off), ("returned by ReadFrom", got)):
+        for x, y in zip(seq, seq[1:]):
+            if y <= x:
+                return ("redial-queue-order", "order: packets %s out of order or twice: ... %d, %d ..." % (name, x, y))
+    p = prop_redial(legacy, impl, model)
+    if p:
+        return (key_redial(legacy, impl, model), p)
+    alts = model.split("|")
+    if impl not in alts:
+        # same answers and carriers, other packets: what was accepted is not what came out
+        strip = lambda o: o.split(" off=")[0]
+        for m in alts:
+            if strip(m) == strip(impl):
+                fm = dict(kv.split("=") for kv in m.split(";")[1].split(" "))
+                return ("redial-queue-contents",
+                        "contents: the packets handed to the carriers / returned to the user are not, in order, the packets that were "
+                        "accepted while the queue had room (drop-when-full keeps the queued ones): off=%s got=%s, expected off=%s got=%s"
+                        % (f["off"], f["got"], fm["off"], fm["got"]))
+    return None
+
+
+def prop_redialq(line, impl, model):
+    r = analyse_redialq(line, impl, model)
+    return r[1] if r else None
+
+
+def key_redialq(line, impl, model):
+    r = analyse_redialq(line, impl, model)
+    return r[0] if r else "redial-other"
+
+
+def correspond_redial(ctx, exe, lines, kinds, prop_redial=None, key_redial=None, label="redial"):
+    prop_redial = prop_redial or globals()["prop_redial"]
+    key_redial = key_redial or globals()["key_redial"]
     model = vlib.run_model(lines)
     rc, impl, err = vlib.run_impl(exe, lines)
     if rc != 0 or len(impl) != len(lines):
@@ -675,13 +809,13 @@ def correspond_redial(ctx, exe, lines, kinds):
         alts = m.split("|")
         multi += len(alts) > 1
         if bad:
-            ctx.violation(key_redial(l, r, m), bad, dict(label="redial", case=l, impl=r, model=m[:2000]))
+            ctx.violation(key_redial(l, r, m), bad, dict(label=label, case=l, impl=r[:4000], model=m[:2000]))
         elif r not in alts:
             nd += 1
             if nd <= 5:
-                ctx.not_shown("correspondence redial: the implementation's observation is not among the model's outcomes on `%s`: "
-                              "model=%s impl=%s; the property predicate found no failure on it" % (l, m[:600], r))
-    ctx.extra["redial_cases_with_several_model_outcomes"] = multi
+                ctx.not_shown("correspondence %s: the implementation's observation is not among the model's outcomes on `%s`: "
+                              "model=%s impl=%s; the property predicate found no failure on it" % (label, l[:300], m[:600], r[:600]))
+    ctx.extra[label + "_cases_with_several_model_outcomes"] = multi
     short = [(l, m) for l, m in zip(lines, model) if len(l) < 200 and len(m) < 1500]
     ctx.rng.shuffle(short)
     badx = vlib.coq_crosscheck(short[:25])
@@ -767,6 +901,7 @@ def run(ctx):
                         "QueuePacketConn.WriteTo is modelled as one atomic step; a carrier's pending ReadFrom/WriteTo fails once the carrier is closed",
                         "a carrier is closed when its Close() has RETURNED (model: LDCloseCarrier, a step of the dial loop itself); scripted carriers whose Close blocks until released, and real-time carriers whose Close takes 30-40 ms, record at every dial how many earlier carriers are not closed yet",
                         "clock: explicit for clientMapInner and for the outgoing queues with contents (in-package driver `qm`: the driver performs the bodies of WriteTo/trySend/OutgoingQueue on the inner map with the instant of the case, because the exported methods read time.Now()); real for the sweeper monitor (timeout 200 ms, slack 1 timeout)",
+                        "redialq: the driver is told queueSize (2048) to know when a user ReadFrom would block; the model runs the same machine with the queue contents carried along (Model/RedialQueue.v)",
                         "no aliasing of caller buffers: observed only (drivers overwrite every buffer after the call and every received slice), not a theorem: payloads are values in the model"]
     # container/heap and QueuePacketConn: black box
     rc, capo, err = vlib.run_impl(exe, [AREA + " cap"])
@@ -800,6 +935,8 @@ def run(ctx):
     # RedialPacketConn
     lines, kinds = gen_redial(ctx)
     correspond_redial(ctx, exe, lines, kinds)
+    lines, kinds = gen_redialq(ctx)
+    correspond_redial(ctx, exe, lines, kinds, prop_redial=prop_redialq, key_redial=key_redialq, label="redialq")
     monitors(ctx, exe)
 
 
@@ -830,7 +967,7 @@ def replay(ctx, doc):
         else:
             rc, r, err = vlib.run_impl(exe, [case])
         r = r[0] if r else "!died"
-        p = dict(heap=prop_heap, cm=prop_cm, qm=prop_qm, qc=prop_qc, redial=prop_redial, redials=prop_redial)[a[1]](case, r, m)
+        p = dict(heap=prop_heap, cm=prop_cm, qm=prop_qm, qc=prop_qc, redial=prop_redial, redials=prop_redial, redialq=prop_redialq)[a[1]](case, r, m)
         print("case: %s\n model: %s\n impl:  %s\n property: %s" % (case[:300], m[:300], r[:300], p or "holds"))
         bad += 1 if p else 0
     return 1 if bad else 0
